@@ -15,6 +15,8 @@ pub struct PropSpec {
     pub quick_wall_s: f64,
     pub thorough_wall_s: f64,
     pub assumptions: &'static [&'static str],
+    /// A finite enumerated sub-space: (number of cases, case k). Runs k < count come from it.
+    pub enumerated: Option<(fn() -> usize, fn(usize) -> Option<Scenario>)>,
 }
 
 fn p(rep: &RunReport, name: &str) -> u64 {
@@ -44,8 +46,10 @@ fn spec(
     quick_runs: usize,
     thorough_runs: usize,
 ) -> PropSpec {
-    PropSpec { id, level: "exploration", gen, gen_rule, nontrivial, nontrivial_rule, required_probes, quick_runs, thorough_runs, quick_wall_s: 90.0, thorough_wall_s: 1200.0, assumptions: COMMON_ASSUMPTIONS }
+    PropSpec { id, level: "exploration", gen, gen_rule, nontrivial, nontrivial_rule, required_probes, quick_runs, thorough_runs, quick_wall_s: 90.0, thorough_wall_s: 1200.0, assumptions: COMMON_ASSUMPTIONS, enumerated: None }
 }
+
+const BOTH_RULE: &str = "Two thirds of the scenarios are cluster scenarios (world W1: real nodes via Node::new over the simulated network, each with its own committee size/stakes, timeouts, latency shape and a random subset of fault kinds: slow leaders for seeded rounds, partitions, crashes, connection resets, stalls, latency spikes, clock jumps, short/pending writes, split reads, staggered boot). One third are puppet scenarios (world W2: ONE real node, all other authorities played by the harness with their keys; a seeded policy delivers one action per quiescence step: valid proposals with or without TC, equivocating siblings, stale proposals, missing payloads, votes / timeouts trickled one per step, TCs, timer expiries, duplicates, conflicting votes, replays, invalid variants).";
 
 const C12_RULE: &str = "Scenario seeds are SplitMix64(VERIF_SEED, property, k); each expands into a cluster scenario biased to the mempool dissemination path: equal, skewed and dominant-member stakes, small batches, many transactions, acknowledgement (reply) direction of seeded mempool links held for a while or for ever, mempool links cut or slowed, connection resets, occasional slow leaders.";
 const C11_RULE: &str = "Scenario seeds are SplitMix64(VERIF_SEED, property, k); each expands into a 4-node cluster on a healthy network where two nodes receive transactions of sizes 0, 1, 8, 9, batch_size-1, batch_size, batch_size+1, several batch sizes and random, from three client connections each, with arrival gaps 0, sub-millisecond, exactly max_batch_delay, max_batch_delay +- 1 ms and random; batch_size in {1,9,50,200,1000}, max_batch_delay in {5,20,50,100} ms per node.";
@@ -55,8 +59,29 @@ const C07_RULE: &str = "Scenario seeds are SplitMix64(VERIF_SEED, property, k); 
 
 const PUPPET_RULE: &str = "Scenario seeds are SplitMix64(VERIF_SEED, property, k); each expands into a puppet scenario (world W2): ONE real node booted through Node::new, committee of 4..7 with equal or unequal stakes, all other authorities played by the harness which holds their keys. A seeded policy delivers one action per quiescence step (valid proposals for the node's round with or without TC, equivocating siblings, stale proposals, proposals with missing payloads, votes / timeouts trickled to the node one per step when it is the collector, TCs, timer expiries, replays, sync probes) and, with a per-run probability, one of 28 kinds of invalid variant (flipped signature bits, altered signed fields with the signature kept, transplanted signatures across blocks and message kinds, certificates with repeated / non-member signers, below quorum, over another round, for future rounds).";
 
+const C14_RULE: &str = "World W3 (reliable sender): the real ReliableSender against the real network::Receiver with a handler replying ack:<message>. ENUMERATED completely: m in 1..4 messages handed over in a burst or 5 ms apart; no break or one break of the first connection at every frame position (request k lost in flight / request k just received / acknowledgement k lost in flight / acknowledgement k just received); 0..3 refused (re)connection attempts; no cancellation or the handle of message j dropped right after hand-over or 50 ms later. ON TOP, seeded exploration: up to 50 messages, several breaks on successive connections, peer-down intervals, cancellations at random instants, short writes, pending writes and split reads.";
+
 pub fn specs() -> Vec<PropSpec> {
     vec![
+        PropSpec {
+            id: "C14",
+            level: "fault_enumeration",
+            gen: crate::gen::c14_random,
+            gen_rule: C14_RULE,
+            nontrivial: |r| p(r, "rs.reset") > 0 || f(r, "refuse-scripted") > 0 || p(r, "rs.cancelled") > 0,
+            nontrivial_rule: "a connection was actually broken, a connection attempt refused, or a handle dropped",
+            required_probes: &["rs.retransmission", "rs.duplicate-delivery", "rs.cancelled", "rs.reset", "rs.resolved"],
+            quick_runs: 2432 + 600,
+            thorough_runs: 2432 + 60_000,
+            quick_wall_s: 90.0,
+            thorough_wall_s: 1200.0,
+            assumptions: &[
+                "the enumerated sub-space is covered completely; beyond it this is sampling",
+                "TCP is modelled as ordered bytes, EOF and reset; a break loses the bytes in flight in both directions",
+                "liveness is judged after a quiet tail (20 s virtual in the enumerated cases, 150 s in exploration: the back-off is capped at 60 s)",
+            ],
+            enumerated: Some((crate::gen::c14_cases, crate::gen::c14_case)),
+        },
         spec("C04", |s, t| crate::gen::puppet("C04", s, t), PUPPET_RULE, |r| p(r, "puppet.invalid-injected") > 0 && p(r, "puppet.vote-as-expected") > 0,
             "at least one invalid variant was injected and the node voted for a valid proposal as the model expected (so rejection and normal operation were both exercised)",
             &["puppet.invalid-injected", "puppet.vote-as-expected", "puppet.node-proposed", "C19.tc-broadcast"], 400, 20000),
@@ -76,26 +101,27 @@ pub fn specs() -> Vec<PropSpec> {
             quick_wall_s: 90.0,
             thorough_wall_s: 1200.0,
             assumptions: COMMON_ASSUMPTIONS,
+            enumerated: None,
         },
         spec("C02", |s, t| crate::gen::chaos("C02", s, t), CLUSTER_RULE, |r| p(r, "C02.commit-across-round-gap") > 0,
             "some node delivered a block whose round is more than one above the previously delivered block (a commit across a view change)",
             &["commit", "C02.commit-across-round-gap", "C05.ancestor-commit"], 160, 6000),
-        spec("C03", |s, t| crate::gen::chaos("C03", s, t), CLUSTER_RULE, |r| p(r, "C03.vote-on-wire") > 0 && p(r, "C10.timeout-on-wire") > 0,
+        spec("C03", |s, t| if s % 3 == 0 { crate::gen::puppet("C03", s, t) } else { crate::gen::chaos("C03", s, t) }, BOTH_RULE, |r| p(r, "C03.vote-on-wire") > 0 && p(r, "C10.timeout-on-wire") > 0,
             "votes and timeouts of honest nodes both appeared on the wire (the vote/timeout interplay was exercised)",
             &["C03.vote-on-wire", "C10.timeout-on-wire", "C19.qc-emitted"], 160, 6000),
-        spec("C05", |s, t| crate::gen::chaos("C05", s, t), CLUSTER_RULE, |r| p(r, "C05.ancestor-commit") > 0 || p(r, "C02.commit-across-round-gap") > 0,
+        spec("C05", |s, t| if s % 3 == 0 { crate::gen::puppet("C05", s, t) } else { crate::gen::chaos("C05", s, t) }, BOTH_RULE, |r| p(r, "C05.ancestor-commit") > 0 || p(r, "C02.commit-across-round-gap") > 0,
             "a commit delivered uncommitted ancestors or crossed a round gap (so chains with gaps at either position of the 2-chain occurred)",
             &["C05.direct-commit", "C05.ancestor-commit"], 160, 6000),
-        spec("C08", |s, t| crate::gen::chaos("C08", s, t), CLUSTER_RULE, |r| p(r, "C08.vote-nonempty-payload") > 0 && p(r, "C13.batch-request") > 0,
+        spec("C08", |s, t| if s % 3 == 0 { crate::gen::puppet("C08", s, t) } else { crate::gen::chaos("C08", s, t) }, BOTH_RULE, |r| p(r, "C08.vote-nonempty-payload") > 0 && p(r, "C13.batch-request") > 0,
             "a node voted for a block with a non-empty payload and some node had to request a missing batch",
             &["C08.vote-nonempty-payload", "C08.commit-nonempty-payload", "C13.batch-request"], 160, 6000),
-        spec("C09", |s, t| crate::gen::chaos("C09", s, t), CLUSTER_RULE, |r| p(r, "C09.rotation-window") > 0 && p(r, "C10.timeout-on-wire") > 0,
+        spec("C09", |s, t| if s % 3 == 0 { crate::gen::puppet("C09", s, t) } else { crate::gen::chaos("C09", s, t) }, BOTH_RULE, |r| p(r, "C09.rotation-window") > 0 && p(r, "C10.timeout-on-wire") > 0,
             "n consecutive voted rounds were observed and at least one timeout occurred",
             &["C09.proposal", "C09.rotation-window"], 160, 6000),
-        spec("C10", |s, t| crate::gen::chaos("C10", s, t), CLUSTER_RULE, |r| p(r, "C19.tc-broadcast") > 0,
+        spec("C10", |s, t| if s % 3 == 0 { crate::gen::puppet("C10", s, t) } else { crate::gen::chaos("C10", s, t) }, BOTH_RULE, |r| p(r, "C19.tc-broadcast") > 0,
             "a timeout certificate was assembled and broadcast by an honest node (rounds advanced through the timeout path)",
             &["C10.evidence-checked", "C10.timeout-on-wire", "C19.tc-broadcast"], 160, 6000),
-        spec("C19", |s, t| crate::gen::chaos("C19", s, t), CLUSTER_RULE, |r| p(r, "C19.tc-broadcast") > 0 && p(r, "C19.qc-emitted") > 0,
+        spec("C19", |s, t| if s % 3 == 0 { crate::gen::puppet("C19", s, t) } else { crate::gen::chaos("C19", s, t) }, BOTH_RULE, |r| p(r, "C19.tc-broadcast") > 0 && p(r, "C19.qc-emitted") > 0,
             "honest nodes emitted both QCs and TCs",
             &["C19.qc-emitted", "C19.tc-broadcast"], 160, 6000),
         spec("C12", crate::gen::c12, C12_RULE, |r| p(r, "C12.own-batch-stored") > 0 && (f(r, "mute-ack") + f(r, "mempool-cut") + f(r, "mempool-delay") + f(r, "reset")) > 0,
@@ -104,9 +130,9 @@ pub fn specs() -> Vec<PropSpec> {
         spec("C11", crate::gen::c11, C11_RULE, |r| p(r, "C11.own-batch") >= 2,
             "at least two batches were sealed",
             &["C11.own-batch", "C11.batch-stored", "tx.delivered"], 200, 8000),
-        spec("C13", crate::gen::c13, C13_RULE, |r| p(r, "commit") > 0 && p(r, "tx.delivered") > 0 && p(r, "C13.batch-request") > 0,
-            "transactions were submitted, blocks committed, and some node had to fetch a missing batch",
-            &["tx.delivered", "C13.batch-request", "C13.batch-served-by-helper"], 120, 4000),
+        spec("C13", crate::gen::c13, C13_RULE, |r| p(r, "C13.judged-end-to-end") > 0 && p(r, "tx.delivered") > 0 && p(r, "C13.batch-request") > 0,
+            "the run stayed inside the premise (no timeout, no view change) and was judged end to end, transactions were submitted, and some node had to fetch a missing batch",
+            &["tx.delivered", "C13.batch-request", "C13.batch-served-by-helper", "C13.judged-end-to-end"], 120, 4000),
         spec("C06", crate::gen::c06, C06_RULE, |r| f(r, "crash") > 0 && p(r, "C19.tc-broadcast") > 0,
             "an authority crashed and a timeout certificate was formed",
             &["commit", "C19.tc-broadcast"], 160, 6000),
